@@ -100,21 +100,41 @@ def run(ctx, calls=CALLS, module=MODULE, corpus=CORPUS, gen_kw=None, extra=None,
         batch = 400
         for i in range(0, len(ts), batch):
             eng.run(ts[i:i + batch])
+    cov = eng.coverage()
+    # cases that were NOT compared (driver errors, skipped, outside the exact range), with reasons; a stream of which more
+    # than 2 % is not compared -- or in which no case was evaluated -- has not checked the property: VIOLATION without input
+    oc = cov["outcomes"]
+    n_eval = oc.get("evaluations", 0)
+    n_nc = sum(oc.get(k, 0) for k in ("driver-error", "skipped", "inexact"))
+    cov["not_compared"] = {"total": n_nc, "share": round(n_nc / max(1, n_eval), 5),
+                           "reasons": dict(eng.not_compared.most_common(12)),
+                           "sub_expressions_not_expanded": oc.get("skipped-not-wf", 0),
+                           "limit": "more than 2 % not compared (or no case evaluated) ends the run with a VIOLATION"}
+    if not ctx.replay and (n_eval == 0 or n_nc > 0.02 * n_eval or oc.get("skipped-not-wf", 0) > 0.02 * max(1, n_eval)):
+        common.violation(ctx, {"broken": "correspondence stream of the operator-tree code model: too many cases were not compared",
+                               "evaluations": n_eval, "not_compared": cov["not_compared"]}, no_input=True)
     if gate_err is not None:
         # the proofs no longer check: the correspondence stream above was the failing-input search
         if not ctx.violations:
             common.violation(ctx, {"broken": f"Lean gate of {module}", "detail": gate_err[-3000:]}, no_input=True)
-    cov = eng.coverage()
     if extra is not None and not ctx.replay:
         cov.update(extra(ctx))
-    cov["rule"] = ("type-directed random operator trees (gen.py) over all modelled kinds, depth <= %d, extents <= %d, every node of "
-                   "every tree observed; distinct = canonical JSON of (expression, call, operand); non-trivial = not a bare "
-                   "Identity/ScalarMul/Diagonal leaf" % (4 if ctx.thorough else 3, G.max_extent))
+    cov["rule"] = ("type-directed random operator trees (gen.py) over all modelled kinds, generator depth parameter <= %d (the special "
+                   "composites and the Hermitian / Gram wrappers add further levels: the measured depths are in `depths`), extents "
+                   "<= %d, every node of every tree observed; distinct = canonical JSON of (expression, call, operand); non-trivial "
+                   "= not a bare Identity/ScalarMul/Diagonal leaf" % (4 if ctx.thorough else 3, G.max_extent))
     common.write_evidence(ctx, gate, cov, assumptions=[
         "Jacobian, Hessian, ConvolveND, FFT are outside the model (autodiff / jax-only / transcendental payloads); Kernel is "
-        "modelled separately (Model/KernelOp.lean, C01's kernel stream) and cannot be nested in a tree",
-        "dtype: real = code model (Op.dtype, Op.mmDtype) = specification (Op.dtypeSpec, Op.mmDtypeSpec: join of the leaf dtypes "
-        "and the operand dtype), proved equal for every tree (C01_dtype, C01_result_dtype, C02_tower_dtype)",
+        "modelled separately (Model/KernelOp.lean, theorems C01_kernel_matmat / C01_kernel_blocks_cover / C01_kernel_update, "
+        "tied by the kernel stream of c01.py) and cannot be nested in a tree",
+        "dtype: real = code model = specification.  Operator dtype: Op.dtype (constructors) = Op.dtypeSpec (join of the leaf "
+        "dtypes), C01_dtype.  Result dtype of A @ X / X @ A: the code-model value is the RECURSIVE dtype model Op.mmDt / Op.rmmDt "
+        "(Model/MatmatDtype.lean: per class what _matmat / _rmatmat does with dtypes), proved equal to promote_types(A.dtype, "
+        "X.dtype) and to the specification Op.mmDtypeSpec for every well-formed tree (C01_result_dtype_model, "
+        "C02_left_product_dtype_model); NumPy's promote_types is a third opinion in treecheck.observations",
+        "a recorded clause of the indexing step explains a code/spec difference of A[ix, ix] entry by entry "
+        "(treecheck.getitem_attribution): getitem-array-pair-outer only if the returned operator IS the outer selection, "
+        "sliced-repeated-index only for entries in a repeated row / column position",
         "floating-point results are compared exactly only where every intermediate is an exactly representable integer"])
     print(json.dumps({"outcomes": cov["outcomes"], "distinct_nontrivial": cov["distinct_nontrivial"],
                       "gate": (gate or {}).get("obligations")}))
